@@ -560,14 +560,21 @@ class SelfPath(Path):
         if isinstance(context.current, str):
             return self._current_node(context)
 
-        return NodeList(self.path.finditer(context.current))
+        return NodeList(
+            self.path.finditer(context.current, filter_context=context.extra_context)
+        )
 
     async def evaluate_async(self, context: FilterContext) -> object:
         if isinstance(context.current, str):
             return self._current_node(context)
 
         return NodeList(
-            [match async for match in await self.path.finditer_async(context.current)]
+            [
+                match
+                async for match in await self.path.finditer_async(
+                    context.current, filter_context=context.extra_context
+                )
+            ]
         )
 
 
@@ -586,11 +593,18 @@ class RootPath(Path):
         return str(self.path)
 
     def evaluate(self, context: FilterContext) -> object:
-        return NodeList(self.path.finditer(context.root))
+        return NodeList(
+            self.path.finditer(context.root, filter_context=context.extra_context)
+        )
 
     async def evaluate_async(self, context: FilterContext) -> object:
         return NodeList(
-            [match async for match in await self.path.finditer_async(context.root)]
+            [
+                match
+                async for match in await self.path.finditer_async(
+                    context.root, filter_context=context.extra_context
+                )
+            ]
         )
 
 
@@ -610,13 +624,19 @@ class FilterContextPath(Path):
         return "_" + path_repr[1:]
 
     def evaluate(self, context: FilterContext) -> object:
-        return NodeList(self.path.finditer(context.extra_context))
+        return NodeList(
+            self.path.finditer(
+                context.extra_context, filter_context=context.extra_context
+            )
+        )
 
     async def evaluate_async(self, context: FilterContext) -> object:
         return NodeList(
             [
                 match
-                async for match in await self.path.finditer_async(context.extra_context)
+                async for match in await self.path.finditer_async(
+                    context.extra_context, filter_context=context.extra_context
+                )
             ]
         )
 
